@@ -41,6 +41,7 @@ func runC15(c *Ctx, r *Report) {
 	c15R14(c, r, "C15.R14")
 	c15R15(c, r, "C15.R15")
 	c15Cursor(c, r, "C15.R16")
+	c15Tables(c, r, "C15.R17")
 }
 
 // docOptions extracts the option keywords at block depth 1 of a "Syntax:" doc block.
